@@ -27,7 +27,9 @@ func main() {
 	rep := vh.NewReport(a, "part A: every reflect.Type reachable from the 158 precompiled import tables (imports.Packages: all Types entries, types of all Binds; "+
 		"walked transitively through elem/key/field/param/result/method types) converted with Universe.FromReflectType - exhaustive; "+
 		"part B: composites built with PtrTo/SliceOf/ArrayOf/ChanOf/MapOf/FuncOf/StructOf over a base set, bounded-exhaustive to depth 2 (quick) / 3 sampled (thorough); "+
-		"part C: predicates on all ordered pairs of a type sample; part D: PRNG construction histories over term ids. "+
+		"part C: predicates on all ordered pairs of a type sample (hand-picked compiled types incl. twin named structs and named/unnamed pointer, slice, array, map, chan, func types over them); part D: PRNG construction histories over term ids; "+
+		"part E: PRNG families of declared types (3..6 structs embedding earlier ones by value or pointer, 1..2 diamonds = one type reached through two embedded fields at equal depth 2..4 - or unequal depth - by value or pointer, skewed embeddings, twins = distinct named types with identical underlying types (also up to tags), named and aliased pointer/slice/array/map/chan/func/struct composites over them, named basics, methods with value/pointer receivers) declared in a gomacro interpreter and type-checked by the toolchain's go/types: "+
+		"FieldByName/MethodByName of every struct x every pool name (twice) against go/types.LookupFieldOrMethod, Identical/AssignableTo/ConvertibleTo/Comparable of the fork's go/types and of xreflect on every ordered pair against the toolchain's go/types (xreflect Assignable/Convertible only where its reflect shortcut does not fire: known class C29-K1). "+
 		"A case is one type (A,B), one ordered pair (C) or one history (D); non-trivial = composite kind (A,B), pair of different types (C), history with a repeated term (D); distinct by SHA-256 of the canonical type text")
 	wd := vh.NewWatchdog(rep, 120*time.Second)
 	wd.Beat("setup: go list -export")
@@ -98,6 +100,9 @@ func main() {
 	h.partD(rng.Fork(), cw)
 	cw.Close()
 	rep.Extra["partD_s"] = time.Since(t0).Seconds()
+	// ---------------- part E
+	h.partE(rng.Fork())
+	rep.Extra["partE_s"] = time.Since(t0).Seconds()
 	for k, n := range h.stats {
 		rep.Extra["stat_"+k] = n
 	}
